@@ -115,13 +115,13 @@ CHECKS = {
          'DESIGN.md section 3 C03'),
  'C14': ('exploration',
          'exhaustive error templates (error class x evaluation stage x width x version) and all single-token mutations of seed programs; outcome classification',
-         '5 arithmetic faults x 16 evaluation stages (parse-time folding, constant definition/use, macro argument, rep count / '
+         '8 arithmetic faults (three with 20 000-bit operands) x 16 evaluation stages (parse-time folding, constant definition/use, macro argument, rep count / '
          'iterator, pad / segment / reserve argument, late label resolution in flip / jump / wflip / segment, $) and ~85 further '
          'error templates (lexing, syntax, macros incl. recursion through rep, nesting right below / above the default depth, labels declared twice through expansions, diagnostics raised under a label-counted rep, every geometry of two / three overlapping segments, labels, constants, directives, ranges, files) at every width and version, '
          'every sequence of <= 3 (4 thorough) primitive statements over a 16-statement alphabet, 45 long-token sources each in its own killable child process (a stall inside C code),  plus every deletion / duplication / swap / substitution (41-token alphabet) of every token of four seed programs (one '
          'with the stl): the outcome must be success or a FlipJumpException that is not the generic "Unknown exception" funnel '
          '(and names the offending identifier for templates that carry one), within 30 s, leaving no loadable output file.',
-         'Astronomically large ** / << operands are not generated; label expressions of up to 3000 terms are (F22).',
+         'Operands of 20 000 bits are generated (F25), label expressions of up to 3000 terms too (F22); counts and alignments so large that the well-formed program cannot be materialised (pad 1<<40, rep(1<<20000)) are resource exhaustion, not error classes, and are not generated.',
          'DESIGN.md section 3 C14'),
  'C16': ('exploration',
          'exhaustive program family (C03 skeletons x identifier assignments x 1/2 files) - label instances of the inlined program matched against the saved table; breakpoint resolution over all names and derived substrings',
